@@ -337,6 +337,8 @@ class Spec:
             return
         if not (0 <= fwt <= 0xFFFF and 0 <= fwv <= 0xFFFF):
             return
+        if image is not None and len(image) == 0:
+            return      # a firmware file without data is no firmware: nothing is loaded or scheduled
         if image is not None:
             data = pad_fw(image)
             if len(data) // 16 > 0xFFFF:
